@@ -217,7 +217,7 @@ fn plain_histories(cx: &mut Ctx, eng: &mut Engine, idx: &mut u64) {
 pub fn run(cx: &mut Ctx) {
     let mut eng = Engine::new("C15", false, false);
     let page = eng.page;
-    let depth = cx.tier.pick(2usize, 3, 4);
+    let depth = cx.tier.pick(2usize, 3, 5);
     let mut idx = 0u64;
     for resizable in [true, false] {
         let lens: &[usize] = if resizable { &BYTES_LENS } else { &ARRAY_LENS };
@@ -258,7 +258,7 @@ pub fn run(cx: &mut Ctx) {
             }
         }
     }
-    let reps = cx.tier.pick(1usize, 1, 20);
+    let reps = cx.tier.pick(1usize, 1, 200);
     for _ in 0..reps {
         plain_histories(cx, &mut eng, &mut idx);
     }
